@@ -280,6 +280,11 @@ def DNode.run (d : DNode) : List DOp → DNode
 /-- Two items of one name under one parent: the by-name restore operations of the base model are then not the code's
 first-match semantics (see the header). -/
 def Folder.twins (G : Folder) : Bool := !(G.files.map (·.name)).Nodup
+/-- two or more DELETED files of one name and no live one: a restore by name reaches the first in DELETION order in the code, all of
+them in the model (a deleted file WITH a live namesake is handled exactly: `File.restoreIn`) -/
+def Folder.deadTwins (G : Folder) : Bool :=
+  G.files.any (fun x => x.deleted && !hasLive x.name G.files &&
+    decide ((G.files.filter (fun y => y.name = x.name && y.deleted)).length ≥ 2))
 def Node.folderTwins (n : Node) : Bool := !(n.folders.map (·.name)).Nodup
 
 /-- two LIVE files named `f` in a live folder named `F`: the by-name file operations of the model would reach both, the code
@@ -292,8 +297,8 @@ def Node.liveTwins (n : Node) (F f : String) : Bool :=
 the code (first match)? -/
 def DNode.restoreAmbiguous (d : DNode) : DOp → Bool
   | .base (.fsRestoreFolder F) => d.n.folderTwins && d.n.folders.any (fun G => G.name = F)
-  | .base (.fsRestoreFile F _) => d.n.folders.any (fun G => G.name = F && !G.deleted && G.twins)
-  | .base .tick | .tickDb _ _ => d.n.folders.any (fun G => !G.deleted && G.restoreCd = 1 && G.twins)
+  | .base (.fsRestoreFile F _) => d.n.folders.any (fun G => G.name = F && !G.deleted && G.deadTwins)
+  | .base .tick | .tickDb _ _ => d.n.folders.any (fun G => !G.deleted && G.restoreCd = 1 && G.deadTwins)
   | .base (.file F f _) | .base (.fsDeleteFile F f) | .base (.folderDelete F f) | .dbReplace F f _ => d.n.liveTwins F f
   | .dbRestore _ _ => d.n.liveTwins dbFolder dbFile || d.n.liveTwins dlFolder dbFile
   | _ => false
